@@ -6,12 +6,13 @@ import logging
 
 import numpy as np
 
-assert any(p.rstrip("/") == "/repo/src" for p in sys.path), "PYTHONPATH must contain /repo/src"
+REPO_SRC = os.environ.get("VERIF_REPO_SRC", "/repo/src").rstrip("/")
+assert any(p.rstrip("/") == REPO_SRC for p in sys.path), "sys.path must contain " + REPO_SRC
 os.environ.setdefault("YAW_NUM_THREADS", "1")
 
 import yaw  # noqa: E402
 
-assert os.path.realpath(yaw.__file__).startswith("/repo/src/"), yaw.__file__
+assert os.path.realpath(yaw.__file__).startswith(os.path.realpath(REPO_SRC) + "/"), yaw.__file__
 logging.getLogger("yaw").setLevel(logging.CRITICAL)
 
 from yaw import Catalog, Configuration  # noqa: E402,F401
